@@ -649,6 +649,15 @@ func genC12(r *rand.Rand, run int, _ string) *Scenario {
 		be.Root = append(be.Root, op)
 	}
 
+	// Entries that arrive through Restore from an instance with ANOTHER eviction strategy, where they were served a
+	// few times (a new version of the application warms up from the old one): whatever that instance noted about
+	// its serves, this cache has not served them.
+	if be.Cfg.Strategy == 2 && chance(r, 0.4) {
+		for i := 0; i < 1+n/3; i++ {
+			be.Root = append(be.Root, BEOp{Kind: "restoreServed", Key: r.IntN(n), SrcStrategy: 1, SrcServes: 1 + r.IntN(3)})
+		}
+	}
+
 	// access history
 	reads := r.IntN(3 * n)
 	for i := 0; i < reads; i++ {
@@ -676,6 +685,9 @@ type accessInfo struct {
 	serves    int64
 	exp       int64
 	never     bool
+	// restoredServes >= 0: the entry arrived through Restore from a cache of another strategy where it had been
+	// served that often; -1: written here.
+	restoredServes int64
 }
 
 func (r *beRun) modeEvict() {
@@ -714,12 +726,25 @@ func (r *beRun) modeEvict() {
 		if op.Kind != "sleep" {
 			r.rootSleep(time.Duration(1000 + i)) // distinct serve instants
 
+			if op.Kind == "restoreServed" {
+				if a := r.restoreServed(i, op); a != nil {
+					acc[string(r.sc.Keys[op.Key])] = a
+					out.probe("entry_served_elsewhere_restored")
+				}
+
+				if out.Internal != "" {
+					return
+				}
+
+				continue
+			}
+
 			rec := r.exec(0, i, op)
 
 			switch op.Kind {
 			case "write":
 				ttl, never := r.effTTL(op)
-				acc[rec.key] = &accessInfo{exp: rec.invT + int64(ttl), never: never}
+				acc[rec.key] = &accessInfo{exp: rec.invT + int64(ttl), never: never, restoredServes: -1}
 			case "read":
 				if a := acc[rec.key]; a != nil && errKind(rec.err) != "notfound" {
 					a.lastServe = rec.invT
@@ -869,7 +894,9 @@ func (r *beRun) modeEvict() {
 
 		// R3: order under the configured strategy, ranks from the harness's own access log.
 		if len(removed) > 0 && len(kept) > 0 {
-			rank := func(k string) (float64, bool) {
+			// rank(k, upper): for most entries one number; for an entry whose history is partly unknown to this
+			// cache the lower or the upper end of what its rank can be
+			rank := func(k string, upper bool) (float64, bool) {
 				a := acc[k]
 				if a == nil {
 					return 0, false
@@ -879,6 +906,12 @@ func (r *beRun) modeEvict() {
 				case 1:
 					return float64(a.lastServe), true
 				case 2:
+					if a.restoredServes >= 0 && upper {
+						// served here a.serves times and elsewhere a handful of times: whichever of the two
+						// histories counts, the rank lies between a.serves and their sum
+						return float64(a.serves + a.restoredServes), true
+					}
+
 					return float64(a.serves), true
 				default:
 					if a.never {
@@ -894,13 +927,13 @@ func (r *beRun) modeEvict() {
 			var mr, mk string
 
 			for _, k := range removed {
-				if v, ok := rank(k); ok && v > maxRem {
+				if v, ok := rank(k, false); ok && v > maxRem {
 					maxRem, mr = v, k
 				}
 			}
 
 			for _, k := range kept {
-				if v, ok := rank(k); ok && v < minKept {
+				if v, ok := rank(k, true); ok && v < minKept {
 					minKept, mk = v, k
 				}
 			}
@@ -975,6 +1008,44 @@ func (r *beRun) restoreNever(m *refModel, i int, op *BEOp) {
 
 // restoreExpiring dumps a one-entry cache of the same family whose entry carries an explicit TTL
 // and restores it into the cache under test.
+// restoreServed: an entry that was written and served op.SrcServes times in a cache with eviction strategy
+// op.SrcStrategy is dumped there and restored here.
+func (r *beRun) restoreServed(i int, op *BEOp) *accessInfo {
+	cfg := r.cacheConfig()
+	cfg.TimeToLive = 1000 * time.Hour
+	cfg.ExpirationJitter = -1
+	cfg.DeleteExpiredJobInterval = farFuture
+	cfg.CountSoftLimit, cfg.HeapInUseSoftLimit, cfg.SysMemSoftLimit = 0, 0, 0
+	cfg.EvictionStrategy = cache.EvictionStrategy(op.SrcStrategy)
+	cfg.Stats, cfg.Logger, cfg.EvictionNeeded = nil, nil, nil
+
+	src := newBackend(r.sc.Backend, cfg)
+	key := string(r.sc.Keys[op.Key])
+	tok := Tok{K: key, ID: fmt.Sprintf("w0.%d", i)}
+
+	lo := time.Now().UnixNano()
+	_ = src.write(context.Background(), []byte(key), tok)
+
+	for n := 0; n < op.SrcServes; n++ {
+		_, _ = src.read(context.Background(), []byte(key))
+	}
+
+	var buf bytes.Buffer
+
+	_, _ = src.dump(&buf)
+	src.stop()
+
+	if n, err := r.bk.restore(&buf); n != 1 || err != nil {
+		r.e.out.Internal = fmt.Sprintf("restore of a one-entry dump gave (%d, %v)", n, err)
+
+		return nil
+	}
+
+	r.e.logf("restored %q, served %d times by a cache with strategy %d", key, op.SrcServes, op.SrcStrategy)
+
+	return &accessInfo{exp: lo + int64(cfg.TimeToLive), restoredServes: int64(op.SrcServes)}
+}
+
 func (r *beRun) restoreExpiring(m *refModel, i int, op *BEOp) {
 	cfg := r.cacheConfig()
 	cfg.TimeToLive = time.Hour
